@@ -542,3 +542,48 @@ func seq(n int) []int {
 	}
 	return out
 }
+
+// TestChecksumTwinIDs: anonymous origin IDs that are different byte strings of equal length with the same weak checksum
+// (CRC-32, FNV, Adler, byte sum / xor): for one client and one issuer origin ID the first is accepted, the second must
+// be refused, the first accepted again; with another origin the second is accepted.
+func TestChecksumTwinIDs(t *testing.T) {
+	s := rt.S("checksum-twin-ids").SetRule("for each of 7 checksum families a pair (A, B) of colliding anonymous origin IDs: verify(c0); (c0,o0,A) accepted; (c0,o0,B) refused; (c0,o0,A) accepted; (c0,o1,B) accepted; (c0,o1,A) refused. non-trivial = every pair; distinct by construction")
+	u := theUniverse()
+	var cnt int64
+	for _, tw := range gen.WeakHashCollisions("anonymous-origin-%s") {
+		att := type3.NewRateLimitedAttester(&memCache{m: map[string]*type3.ClientState{}})
+		if err := att.VerifyRequest(*u.states[0].Request(), u.verifyBl[0], u.clientKeys[0], u.anon[0]); err != nil {
+			rt.Report(t, "C09/verify", "", nil, "honest VerifyRequest failed: %v", err)
+			return
+		}
+		blind := bytes.Repeat([]byte{0x42}, 33)
+		fin := func(o int, anon string) error {
+			requestKey := ref.BlindCompressed(u.clientKeys[0], new(big.Int).SetBytes(blind), ref.ClientBlindCtx)
+			blindedReqKey := ref.BlindCompressed(requestKey, u.indexKeys[o], ref.IssuerBlindCtx)
+			var err error
+			if out := rt.GuardLite(func() {
+				_, err = att.FinalizeIndex(append([]byte{}, u.clientKeys[0]...), blind, blindedReqKey, []byte(anon))
+			}); out.Panic != nil {
+				return fmt.Errorf("panic: %v", out.Panic)
+			}
+			return err
+		}
+		steps := []struct {
+			o      int
+			anon   string
+			accept bool
+		}{{0, tw.A, true}, {0, tw.B, false}, {0, tw.A, true}, {1, tw.B, true}, {1, tw.A, false}, {1, tw.B, true}}
+		for i, st := range steps {
+			err := fin(st.o, st.anon)
+			cnt++
+			if (err == nil) != st.accept {
+				rt.Report(t, "C09/checksum-twins/"+map[bool]string{true: "rejected-allowed", false: "accepted-forbidden"}[st.accept], "", nil,
+					"anonymous origin IDs %q and %q (equal length, equal %s): step %d (origin %d, ID %q) answered err=%v, expected accept=%v", tw.A, tw.B, tw.Hash, i, st.o, st.anon, err, st.accept)
+				break
+			}
+		}
+	}
+	s.EvalN(cnt)
+	s.NontrivialEnum(cnt)
+	s.Sample(func() any { return gen.WeakHashCollisions("anonymous-origin-%s") })
+}
